@@ -98,6 +98,19 @@ def lib_fst(M, c):
     from genlm.grammar import FST
 
     t = FST(M.lib)
+    if c.get("api") == "set":
+        # overwrite-style construction API where an entry occurs once (see lib_wfsa)
+        for kind, items in (("I", c["start"]), ("F", c["stop"]), ("arc", c["arcs"])):
+            for it in items:
+                w = M.to_lib(M.parse(it[-1]))
+                once = sum(1 for o in items if o[:-1] == it[:-1]) == 1
+                if kind == "I":
+                    (t.set_I if once else t.add_I)(sym(it[0]), w)
+                elif kind == "F":
+                    (t.set_F if once else t.add_F)(sym(it[0]), w)
+                else:
+                    (t.set_arc if once else t.add_arc)(sym(it[0]), (sym(it[1]), sym(it[2])), sym(it[3]), w)
+        return t
     for q in c["states"]:
         t.add_state(sym(q))
     for q, w in c["start"]:
